@@ -181,7 +181,10 @@ def fresh_root(tag):
 class Run:
     """One history executed on implementation and model in lock step."""
 
-    def __init__(self, lsm_exe, mx_exe, opts, tag, universe=None):
+    def __init__(self, lsm_exe, mx_exe, opts, tag, universe=None, tree=False):
+        """tree=True: lsm_exe is the `lsmtree` binary (a bare LsmTree fed by external ingests)"""
+        self.tree = tree
+        self.max_ts = 0
         self.lsm_exe, self.mx_exe, self.opts = lsm_exe, mx_exe, opts
         self.root = fresh_root(tag)
         self.cache = {}          # setsum -> File
@@ -260,7 +263,7 @@ class Run:
             self.dead = True
             return
         self.dead = False
-        st = self.state()
+        st = {"seq_no": self.max_ts} if self.tree else self.state()
         levels = self.dump()
         if first:
             # seq_no after open = (first write's timestamp) - 1
@@ -334,6 +337,39 @@ class Run:
             self.spec[k] = v
         self.mem_nonempty = True
         self.n_steps["write"] += 1
+
+    def ingest(self, entries):
+        """tree mode: entries = list of (key, ts, value|None), all newer than everything stored"""
+        if self.dead:
+            return
+        line = "ingest " + ",".join("%s.%d.%s" % (hx(k), ts, "~" if v is None else hx(v)) for k, ts, v in entries)
+        out = self.sess.cmd(line)[0]
+        self.events.append((line[:200], out))
+        if out != "INGEST ok":
+            self.problem("error", what="ingest returned an error or panicked", op=line[:200], out=out)
+            return
+        levels = self.dump()
+        old = set(n for lv in self.levels for n in lv)
+        new = [n for n in levels[0] if n not in old]
+        if len(new) != 1 or levels[0][-1:] != new or levels[1:] != self.levels[1:] or levels[0][:-1] != self.levels[0]:
+            self.problem("corr", what="ingest: expected exactly one new file appended to L0", new=new)
+            self.levels = levels
+            return
+        self.check_meta(new)
+        f = self.cache[new[0]]
+        want = sorted(entries, key=lambda e: (e[0], -e[1]))
+        if [(e[0], e[1], e[2]) for e in f.ents] != want:
+            self.problem("corr", what="ingest: the file in the tree does not hold the ingested entries")
+        m = self.model.cmd("I " + file_str(self.fid(new[0]), self.meta[new[0]]["size"], f))
+        if m != "I 1":
+            self.problem("corr", what="model does not accept the ingest", out=m)
+        # latest write per key = the newest version in the file
+        for k, ts, v in sorted(entries, key=lambda e: (e[0], e[1])):
+            self.spec[k] = v
+        self.max_ts = max([self.max_ts] + [e[1] for e in entries])
+        self.levels = levels
+        self.n_steps["ingest"] = self.n_steps.get("ingest", 0) + 1
+        self.compare_version(levels, "ingest")
 
     def reads(self, keys=None):
         if self.dead:
